@@ -99,7 +99,7 @@ func VerifNewQM(strategy int, lens []int) *VerifQM {
 	for i := range lens {
 		n := lens[i]
 		v.lens = append(v.lens, &n)
-		v.qm.Register(verifSizer{&n})
+		v.qm.Register(&verifSizer{&n})
 	}
 	return v
 }
@@ -109,7 +109,38 @@ func (v *VerifQM) SetLen(i, n int) { *v.lens[i] = n }
 // Register binds one more queue (of length n) while the manager is in use.
 func (v *VerifQM) Register(n int) {
 	v.lens = append(v.lens, &n)
-	v.qm.Register(verifSizer{&n})
+	v.qm.Register(&verifSizer{&n})
+}
+
+// Unregister removes queue i (Manager.UnregisterItem: swap with the last, truncate, reset the cursor when it is >= i);
+// the wrapper's own index table is permuted the same way, so indices keep naming the same slots as m.items.
+func (v *VerifQM) Unregister(i int) (count int, cur int) {
+	var it IBaseQueue
+	for _, q := range v.qm.Manager.VerifItems() {
+		if q.(*verifSizer).n == v.lens[i] {
+			it = q
+		}
+	}
+	v.qm.UnregisterItem(it)
+	last := len(v.lens) - 1
+	v.lens[i] = v.lens[last]
+	v.lens = v.lens[:last]
+	return v.qm.Count(), v.qm.Manager.VerifCursorOf()
+}
+
+// VerifOrder lists, for each slot of m.items, the index of the wrapper's table it is (identity when both agree).
+func (v *VerifQM) VerifOrder() []int {
+	var out []int
+	for _, q := range v.qm.Manager.VerifItems() {
+		k := -1
+		for i, p := range v.lens {
+			if p == q.(*verifSizer).n {
+				k = i
+			}
+		}
+		out = append(out, k)
+	}
+	return out
 }
 
 // Next returns the index of the selected queue or -1 / -2 / -3 for no items / all empty / invalid strategy.
@@ -125,7 +156,7 @@ func (v *VerifQM) Next() (int, int, int) {
 		}
 		return -3, cur, v.qm.Len()
 	}
-	s := q.(verifSizer)
+	s := q.(*verifSizer)
 	for i, p := range v.lens {
 		if p == s.n {
 			return i, cur, v.qm.Len()
